@@ -21,6 +21,13 @@ Lemma fv_eq x y : fv x = fv y ->
   readonly x = readonly y.
 Proof. unfold fv. intros H. injection H; intros. repeat split; assumption. Qed.
 
+Lemma fv_intro x y :
+  self x = self y -> others x = others y -> role x = role y -> term x = term y -> voted x = voted y ->
+  votes x = votes y -> log x = log y -> commit x = commit y -> match_idx x = match_idx y ->
+  sr x = sr y -> queue x = queue y -> applied x = applied y -> replay_idx x = replay_idx y ->
+  readonly x = readonly y -> fv x = fv y.
+Proof. intros. unfold fv. congruence. Qed.
+
 Ltac fvinj H :=
   let h := fresh "Hfv" in
   pose proof (fv_eq _ _ H) as h; cbn in h;
